@@ -224,6 +224,7 @@ func (in *Interp) resetPath(prefix []uint64) {
 	in.monitor, in.foreign, in.mapRev = false, nil, false
 	in.epoch++
 	in.pathEpoch = in.epoch
+	in.initTasks()
 }
 
 func (in *Interp) undo() {
@@ -520,6 +521,9 @@ func RunJob(l *Loaded, job Job, nworkers int, seed int64) *JobResult {
 					in.call(fn, []Value{Const(64, uint64(int64(job.N)))})
 					outcome = pathEnd{"done", ""}
 				}()
+				if len(in.tasks) > 1 {
+					in.killAll()
+				}
 				in.undo()
 				// classify
 				var w Witness
